@@ -289,6 +289,8 @@ def run(ctx):
     run_random_branch(ctx, max(20, n // 8))
     big_int_boundaries(ctx, max(60, n // 10))
     choicelib.run_stateful(ctx, 40 if ctx.tier == 'quick' else 600)
+    choicelib.run_scaling(ctx, 25 if ctx.tier == 'quick' else 400)
+    choicelib.run_rounded_totals(ctx)
 
 
 def search(ctx):
